@@ -109,6 +109,13 @@ Theorem c02_named_priors_dedup_by_prior_object_refuted :
 Proof. exact by_prior_object_drops. Qed.
 Print Assumptions c02_named_priors_dedup_by_prior_object_refuted.
 
+(* non-vacuity and the refutation's witness under the definition: a sharing-free tree, two modules that
+   register the SAME prior object under the SAME name -- both registrations are yielded *)
+Example ex_c02_named_priors_same_name_same_object :
+  named_priors (MNode 0 [] [MNode 1 [(0, 7)] []; MNode 2 [(0, 7)] []])%nat = [(1, 0, 7); (2, 0, 7)]%nat.
+Proof. exact by_module_keeps_example. Qed.
+Print Assumptions ex_c02_named_priors_same_name_same_object.
+
 (* HOW a prior term is distributed over the batch elements (_add_other_terms).  A NON-batch module
    (batch shape []), or one whose batch shape consists of ones: ALL entries of its parameter (e.g. all
    ARD lengthscales) count for EVERY batch element, whatever the batch shape of the objective *)
